@@ -195,6 +195,40 @@ Theorem C19_mask_hides_members :
 Proof. exact masked_members_same_admitted. Qed.
 Print Assumptions C19_mask_hides_members.
 
+(* A read bound to a past coordinate (AS OF, snapshot token): an element the caller may not read
+   NOW yields nothing at any earlier coordinate, whatever its past rows contained or were classified
+   as — so a classification raised by the control plane takes effect on the next request for
+   historical reads too. *)
+Theorem C19_hidden_now_hidden_then :
+  forall (LD : ladders) (AA : list string) (k : caller) (g : option N) (past : option element) (c : element),
+    readable LD AA k c = false -> admit_hist LD AA k g past (Some c) = (None, g).
+Proof. exact hidden_now_hidden_then. Qed.
+Print Assumptions C19_hidden_now_hidden_then.
+
+Theorem C19_past_of_hidden_not_inferable :
+  forall (LD : ladders) (AA : list string) (k : caller) (g : option N) (past past' : option element) (c : element),
+    readable LD AA k c = false ->
+    admit_hist LD AA k g past (Some c) = admit_hist LD AA k g past' (Some c).
+Proof. exact past_of_hidden_not_inferable. Qed.
+Print Assumptions C19_past_of_hidden_not_inferable.
+
+(* ... and the code has that shape on BOTH acquisition paths, each judged on its own: Context::load
+   (by id, tuple endpoints, followed references, warm, export closure) and Context::candidates
+   (type scans); historical rows are fetched nowhere else in kql/mod.rs; readable_now only judges. *)
+Theorem C19_gen_load_judges_present_row : load_judges_present_row = true.
+Proof. reflexivity. Qed.
+Print Assumptions C19_gen_load_judges_present_row.
+
+Theorem C19_gen_candidates_judges_present_row : candidates_judges_present_row = true.
+Proof. reflexivity. Qed.
+Print Assumptions C19_gen_candidates_judges_present_row.
+
+Theorem C19_gen_historical_rows_fetched_in_two_places :
+  historical_fetch_sites = [("load", "element_at"); ("candidates", "elements_at")]%string /\
+  readable_now_only_judges = true.
+Proof. split; reflexivity. Qed.
+Print Assumptions C19_gen_historical_rows_fetched_in_two_places.
+
 (* ---------------------------------------------------------------- generated facts: the code as it is now *)
 Open Scope string_scope.
 
